@@ -342,3 +342,50 @@ pub fn vf_min_block_number(v: &[ScriptStatus]) -> (r: Option<u64>) ensures is_mi
 #[verifier::external_body]
 pub fn vf_min_u64(a: u64, b: u64) -> (r: u64) ensures r == (if a <= b { a } else { b }) { unimplemented!() }
 // ===== end =====
+// ===== last state (C12 restart round trip) =====
+pub uninterp spec fn le256(n: nat) -> Seq<u8>;
+pub uninterp spec fn le256_inv(s: Seq<u8>) -> nat;
+pub uninterp spec fn header_of_bytes(s: Seq<u8>) -> Header;
+// ASSUMED: numext U256 little-endian encoding and molecule Header serialisation round-trip
+pub broadcast proof fn ax_le256(n: nat) ensures (#[trigger] le256(n)).len() == 32, le256_inv(le256(n)) == n { admit(); }
+pub broadcast proof fn ax_header_bytes(h: Header) ensures header_of_bytes(#[trigger] h.s_bytes()) == h { admit(); }
+impl U256 {
+    #[verifier::external_body]
+    pub fn vf_to_le_bytes(&self) -> (r: [u8; 32]) ensures r@ == le256(self@) { unimplemented!() }
+    #[verifier::external_body]
+    pub fn from_le_bytes(b: &[u8; 32]) -> (r: U256) ensures r@ == le256_inv(b@) { unimplemented!() }
+}
+impl Header {
+    #[verifier::external_body]
+    pub fn as_slice(&self) -> (r: &[u8]) ensures r@ == self.s_bytes() { unimplemented!() }
+}
+// `let mut a = [0u8; 32]; a.copy_from_slice(s);` (panics unless s has 32 bytes)
+#[verifier::external_body]
+pub fn vf_array32_from_slice(s: &[u8]) -> (r: [u8; 32]) requires s@.len() == 32 ensures r@ == s@ { unimplemented!() }
+// packed::HeaderReader::from_slice_should_be_ok(s).to_entity()
+#[verifier::external_body]
+pub struct HeaderReaderS { b: Vec<u8> }
+impl HeaderReaderS {
+    pub uninterp spec fn s_bytes(&self) -> Seq<u8>;
+    #[verifier::external_body]
+    pub fn from_slice_should_be_ok(s: &[u8]) -> (r: HeaderReaderS) ensures r.s_bytes() == s@ { unimplemented!() }
+    #[verifier::external_body]
+    pub fn to_entity(&self) -> (r: Header) ensures r == header_of_bytes(self.s_bytes()) { unimplemented!() }
+}
+pub uninterp spec fn be256(n: nat) -> Seq<u8>;
+impl U256 {
+    #[verifier::external_body]
+    pub fn vf_to_be_bytes(&self) -> (r: [u8; 32]) ensures r@ == be256(self@) { unimplemented!() }
+}
+impl VfBytes for &Vec<u8> { open spec fn s_b(&self) -> Seq<u8> { (**self)@ } }
+pub uninterp spec fn put_ok(key: Seq<u8>, value: Seq<u8>) -> bool;     // gate of the direct (non-batch) put
+impl Db {
+    pub uninterp spec fn s_get(&self, key: Seq<u8>) -> Option<Vec<u8>>;
+    #[verifier::external_body]
+    pub fn put<K: VfBytes, V: VfBytes>(&self, key: K, value: V) -> (r: core::result::Result<(), DbError>)
+        requires put_ok(key.s_b(), value.s_b()) ensures r is Ok { unimplemented!() }
+    #[verifier::external_body]
+    pub fn get_pinned(&self, key: &Vec<u8>) -> (r: core::result::Result<Option<Vec<u8>>, DbError>)
+        ensures r is Ok, r->Ok_0 == self.s_get(key@) { unimplemented!() }
+}
+// ===== end =====
